@@ -33,7 +33,7 @@ func (c04) Count(tier string) int {
 // ---- values -------------------------------------------------------------------------------------
 
 // key values cross the protocol as tokens (see lean/Driver/C04.lean).
-func valTok(v interface{}, present bool) string {
+func c04ValTok(v interface{}, present bool) string {
 	if !present {
 		return "m"
 	}
@@ -54,7 +54,7 @@ func valTok(v interface{}, present bool) string {
 	return "s:" + hx(fmt.Sprintf("?%T:%v", v, v))
 }
 
-func tokVal(t string) (v interface{}, present bool) {
+func c04TokVal(t string) (v interface{}, present bool) {
 	p := strings.Split(t, ":")
 	switch p[0] {
 	case "n":
@@ -89,8 +89,8 @@ func c04Str(rng *rand.Rand) string {
 
 var c04Floats = []float64{0.5, 1.5, 3, -2.25, 1e21, 1e-7, 100, 9007199254740993, math.Inf(1)}
 
-// colVal draws a value of column type ty: 0 string, 1 int, 2 float, 3 bool; NULL / missing anywhere.
-func colVal(rng *rand.Rand, ty int) string {
+// c04ColVal draws a value of column type ty: 0 string, 1 int, 2 float, 3 bool; NULL / missing anywhere.
+func c04ColVal(rng *rand.Rand, ty int) string {
 	switch k := rng.Intn(12); {
 	case k == 0:
 		return "n"
@@ -99,18 +99,18 @@ func colVal(rng *rand.Rand, ty int) string {
 	}
 	switch ty {
 	case 1:
-		return valTok([]int{0, 1, -1, 10, 12, 2, 123}[rng.Intn(7)], true)
+		return c04ValTok([]int{0, 1, -1, 10, 12, 2, 123}[rng.Intn(7)], true)
 	case 2:
-		return valTok(c04Floats[rng.Intn(len(c04Floats))], true)
+		return c04ValTok(c04Floats[rng.Intn(len(c04Floats))], true)
 	case 3:
-		return valTok(rng.Intn(2) == 0, true)
+		return c04ValTok(rng.Intn(2) == 0, true)
 	}
-	return valTok(c04Str(rng), true)
+	return c04ValTok(c04Str(rng), true)
 }
 
-// tuplePool draws a pool of tuples that sits on the split points of the encoders: for string columns a
+// c04TuplePool draws a pool of tuples that sits on the split points of the encoders: for string columns a
 // tuple is often derived from an earlier one by moving a separator-like fragment across a column border.
-func tuplePool(rng *rand.Rand, arity, size int) [][]string {
+func c04TuplePool(rng *rand.Rand, arity, size int) [][]string {
 	tys := make([]int, arity)
 	for i := range tys {
 		if rng.Intn(3) == 0 {
@@ -121,7 +121,7 @@ func tuplePool(rng *rand.Rand, arity, size int) [][]string {
 	for len(pool) < size {
 		t := make([]string, arity)
 		for i := range t {
-			t[i] = colVal(rng, tys[i])
+			t[i] = c04ColVal(rng, tys[i])
 		}
 		pool = append(pool, t)
 		if arity >= 2 && rng.Intn(2) == 0 {
@@ -132,8 +132,8 @@ func tuplePool(rng *rand.Rand, arity, size int) [][]string {
 				sep := []string{"|", "\x1f", "\\|", "\x1fs:", "\x00NULL\x1f", "|\\N"}[rng.Intn(6)]
 				u := append([]string(nil), t...)
 				w := append([]string(nil), t...)
-				u[i], u[i+1] = valTok(a+sep+b, true), valTok(c2, true)
-				w[i], w[i+1] = valTok(a, true), valTok(b+sep+c2, true)
+				u[i], u[i+1] = c04ValTok(a+sep+b, true), c04ValTok(c2, true)
+				w[i], w[i+1] = c04ValTok(a, true), c04ValTok(b+sep+c2, true)
 				pool = append(pool, u, w)
 			}
 		}
@@ -145,8 +145,8 @@ func tuplePool(rng *rand.Rand, arity, size int) [][]string {
 				sep := []string{"|", "\x1f"}[rng.Intn(2)]
 				u := append([]string(nil), t...)
 				w := append([]string(nil), t...)
-				u[i], u[i+1] = valTok(a+"\\", true), valTok(b+sep+c2, true)
-				w[i], w[i+1] = valTok(a+sep+b+"\\", true), valTok(c2, true)
+				u[i], u[i+1] = c04ValTok(a+"\\", true), c04ValTok(b+sep+c2, true)
+				w[i], w[i+1] = c04ValTok(a+sep+b+"\\", true), c04ValTok(c2, true)
 				pool = append(pool, u, w)
 			}
 		}
@@ -154,7 +154,7 @@ func tuplePool(rng *rand.Rand, arity, size int) [][]string {
 			// NULL vs empty string vs the text of the NULL markers
 			i := rng.Intn(arity)
 			if tys[i] == 0 {
-				for _, s := range []string{"n", "m", "s:-", valTok("\x00NULL", true), valTok("\\N", true)} {
+				for _, s := range []string{"n", "m", "s:-", c04ValTok("\x00NULL", true), c04ValTok("\\N", true)} {
 					u := append([]string(nil), t...)
 					u[i] = s
 					pool = append(pool, u)
@@ -170,7 +170,7 @@ func (c04) Gen(rng *rand.Rand, tier string, idx int) Case {
 	arity := []int{0, 1, 1, 2, 2, 2, 3}[rng.Intn(7)]
 	mode := []string{"enc", "enc", "agg", "agg", "cnt", "glb"}[idx%6]
 	c.Cfg = append(c.Cfg, []string{"mode", mode}, []string{"arity", strconv.Itoa(arity)})
-	pool := tuplePool(rng, arity, 3+rng.Intn(3))
+	pool := c04TuplePool(rng, arity, 3+rng.Intn(3))
 	c.Stat = append(c.Stat, "mode-"+mode, fmt.Sprintf("arity-%d", arity))
 	switch mode {
 	case "enc":
@@ -198,7 +198,7 @@ func (c04) Gen(rng *rand.Rand, tier string, idx int) Case {
 
 // ---- execution ----------------------------------------------------------------------------------
 
-func cfgVal(c Case, key, dflt string) string {
+func c04CfgVal(c Case, key, dflt string) string {
 	for _, l := range c.Cfg {
 		if len(l) >= 2 && l[0] == key {
 			return l[1]
@@ -210,14 +210,14 @@ func cfgVal(c Case, key, dflt string) string {
 func c04Row(id int, toks []string) map[string]interface{} {
 	row := map[string]interface{}{"id": id}
 	for i, t := range toks {
-		if v, present := tokVal(t); present {
+		if v, present := c04TokVal(t); present {
 			row[fmt.Sprintf("g%d", i)] = v
 		}
 	}
 	return row
 }
 
-func groupFields(arity int) []string {
+func c04GroupFields(arity int) []string {
 	f := make([]string, arity)
 	for i := range f {
 		f[i] = fmt.Sprintf("g%d", i)
@@ -228,7 +228,7 @@ func groupFields(arity int) []string {
 func c04Enc(which string, toks []string) string {
 	row := c04Row(0, toks)
 	delete(row, "id")
-	keys := groupFields(len(toks))
+	keys := c04GroupFields(len(toks))
 	switch which {
 	case "agg":
 		ga := aggregator.NewGroupAggregator(keys, []aggregator.AggregationField{{InputField: "*", AggregateType: aggregator.Count, OutputAlias: "c"}})
@@ -260,8 +260,8 @@ func c04Enc(which string, toks []string) string {
 	}
 }
 
-// resultLine renders one result row: `g v… c <count> ids <id…>`; names are the output column names.
-func resultLine(r map[string]interface{}, names []string) []string {
+// c04ResultLine renders one result row: `g v… c <count> ids <id…>`; names are the output column names.
+func c04ResultLine(r map[string]interface{}, names []string) []string {
 	l := []string{"g"}
 	for _, n := range names {
 		v, ok := r[n]
@@ -269,7 +269,7 @@ func resultLine(r map[string]interface{}, names []string) []string {
 			l = append(l, "n") // a group column that is absent from the result is NULL to the reader
 			continue
 		}
-		l = append(l, valTok(v, true))
+		l = append(l, c04ValTok(v, true))
 	}
 	l = append(l, "c", fmt.Sprint(r["c"]), "ids")
 	if ids, ok := r["ids"].([]interface{}); ok {
@@ -282,24 +282,24 @@ func resultLine(r map[string]interface{}, names []string) []string {
 	return l
 }
 
-func sortLines(ls [][]string) [][]string {
+func c04SortLines(ls [][]string) [][]string {
 	sort.Slice(ls, func(i, j int) bool { return strings.Join(ls[i], " ") < strings.Join(ls[j], " ") })
 	return ls
 }
 
-// barrierDeadline bounds the wait for a quiescence barrier (sentinel result / exact row accounting).
+// c04BarrierDeadline bounds the wait for a quiescence barrier (sentinel result / exact row accounting).
 // Reaching it is reported as a failure observable, never as a pass. Once a barrier has failed in this
 // process the implementation is broken anyway, and the remaining cases only wait briefly.
-var barrierFailed bool
+var c04BarrierFailed bool
 
-func barrierDeadline() time.Duration {
-	if barrierFailed {
+func c04BarrierDeadline() time.Duration {
+	if c04BarrierFailed {
 		return 200 * time.Millisecond
 	}
 	return 2 * time.Second
 }
 
-func hasSentinel(r map[string]interface{}) bool {
+func c04HasSentinel(r map[string]interface{}) bool {
 	ids, _ := r["ids"].([]interface{})
 	for _, id := range ids {
 		if fmt.Sprint(id) == "-1" {
@@ -309,7 +309,7 @@ func hasSentinel(r map[string]interface{}) bool {
 	return false
 }
 
-func hasNegativeID(r map[string]interface{}) bool {
+func c04HasNegativeID(r map[string]interface{}) bool {
 	ids, _ := r["ids"].([]interface{})
 	for _, id := range ids {
 		if strings.HasPrefix(fmt.Sprint(id), "-") {
@@ -324,7 +324,7 @@ func hasNegativeID(r map[string]interface{}) bool {
 // its output channel, the batch processor and the synchronous sink are all FIFO, so the result that
 // contains id -1 is delivered after every result of the rows before it.
 func c04SQL(mode string, arity, n int, alias bool, rows [][]string) [][]string {
-	gf := groupFields(arity)
+	gf := c04GroupFields(arity)
 	names := make([]string, arity)
 	sel := make([]string, 0, arity+2)
 	for i, f := range gf {
@@ -366,34 +366,34 @@ func c04SQL(mode string, arity, n int, alias bool, rows [][]string) [][]string {
 		s.Emit(row)
 	}
 	var out [][]string
-	deadline := time.After(barrierDeadline())
+	deadline := time.After(c04BarrierDeadline())
 	for {
 		select {
 		case b := <-ch:
 			done := false
 			for _, r := range b {
-				if hasSentinel(r) {
+				if c04HasSentinel(r) {
 					done = true
 				}
-				if !hasNegativeID(r) {
-					out = append(out, resultLine(r, names))
+				if !c04HasNegativeID(r) {
+					out = append(out, c04ResultLine(r, names))
 				}
 			}
 			if done {
-				return sortLines(out)
+				return c04SortLines(out)
 			}
 		case <-deadline:
-			barrierFailed = true
-			return append(sortLines(out), []string{"sentinel-lost"})
+			c04BarrierFailed = true
+			return append(c04SortLines(out), []string{"sentinel-lost"})
 		}
 	}
 }
 
 func (c04) Exec(c Case) [][][]string {
-	mode := cfgVal(c, "mode", "enc")
-	arity, _ := strconv.Atoi(cfgVal(c, "arity", "0"))
-	n, _ := strconv.Atoi(cfgVal(c, "n", "1"))
-	alias := cfgVal(c, "alias", "0") == "1"
+	mode := c04CfgVal(c, "mode", "enc")
+	arity, _ := strconv.Atoi(c04CfgVal(c, "arity", "0"))
+	n, _ := strconv.Atoi(c04CfgVal(c, "n", "1"))
+	alias := c04CfgVal(c, "alias", "0") == "1"
 	var out [][][]string
 	var rows [][]string
 	for _, op := range c.Ops {
@@ -406,7 +406,7 @@ func (c04) Exec(c Case) [][][]string {
 		case "results":
 			switch mode {
 			case "agg":
-				gf := groupFields(arity)
+				gf := c04GroupFields(arity)
 				ga := aggregator.NewGroupAggregator(gf, []aggregator.AggregationField{
 					{InputField: "*", AggregateType: aggregator.Count, OutputAlias: "c"},
 					{InputField: "id", AggregateType: aggregator.Collect, OutputAlias: "ids"}})
@@ -423,9 +423,9 @@ func (c04) Exec(c Case) [][][]string {
 				}
 				var ls [][]string
 				for _, r := range res {
-					ls = append(ls, resultLine(r, gf))
+					ls = append(ls, c04ResultLine(r, gf))
 				}
-				out = append(out, sortLines(ls))
+				out = append(out, c04SortLines(ls))
 			default:
 				out = append(out, c04SQL(mode, arity, n, alias, rows))
 			}
